@@ -35,7 +35,7 @@ PROPERTY = {
     "assumptions": ["x86-32, ARM, AArch64 and MIPS32 (little endian) guests (the other architectures' JitCore extensions are not built by the "
                     "harness); the ARM / AArch64 / MIPS32 families have ~40 / ~50 / ~45 instruction forms (MIPS32: branches with filled "
                     "delay slots), no faults", "LLVM back end "
-                    "not available (no llvmlite)", "seeded family: 48 quick / 600 thorough programs"],
+                    "not available (no llvmlite)", "seeded family: x86-32 32 quick / 600 thorough programs, ARM / AArch64 / MIPS32 16 quick / 400 thorough each"],
 }
 
 R32 = ["EAX", "EBX", "ECX", "EDX", "ESI"]
@@ -111,7 +111,7 @@ class BackendCases(BoundedContract):
                 EmulatedSymbExec.mem_read, EmulatedSymbExec.mem_write, EmulatedSymbExec.update_cpu_from_engine]
 
     def cases(self):
-        return list(range(48 if self.tier == "quick" else 600))
+        return list(range(32 if self.tier == "quick" else 600))
 
     def gen(self, case):
         rng = random.Random(2000 + case)
@@ -215,7 +215,7 @@ class BackendCasesArm(BoundedContract):
         return [arm_CGen.block2assignblks, JitCore_Python.add_block]
 
     def cases(self):
-        return list(range(32 if self.tier == "quick" else 400))
+        return list(range(16 if self.tier == "quick" else 400))
 
     def gen(self, case):
         rng = random.Random(20200 + case)
@@ -357,7 +357,7 @@ class BackendCasesA64(BoundedContract):
         return [Lifter_Aarch64l.get_ir, JitCore_Python.add_block]
 
     def cases(self):
-        return list(range(32 if self.tier == "quick" else 400))
+        return list(range(16 if self.tier == "quick" else 400))
 
     def gen(self, case):
         rng = random.Random(20640 + case)
@@ -504,7 +504,7 @@ class BackendCasesMips(BoundedContract):
         return [mipsCGen.block2assignblks, JitCore_Python.add_block]
 
     def cases(self):
-        return list(range(32 if self.tier == "quick" else 400))
+        return list(range(16 if self.tier == "quick" else 400))
 
     def gen(self, case):
         rng = random.Random(20320 + case)
